@@ -63,6 +63,11 @@ type Store struct {
 	loadCount  int
 	notFound   bool // kind of injected error
 	timeout    bool // kind of injected error (wins over notFound)
+	// errKind, when set, wins over both: "eofwrap" = an I/O error that wraps io.EOF (errors.Is(err, io.EOF) holds, the
+	// error is not io.EOF itself, e.g. a store over a truncated data file); "eof" = io.EOF itself; "unexpectedeof"
+	errKind string
+	// writeErrKind: the same kinds for injected write failures ("" = errInjected)
+	writeErrKind string
 
 	// write side
 	logWrites    bool
@@ -120,7 +125,22 @@ func (s *Store) ClearFaults() {
 	s.opens = 0
 }
 
+func kindErr(kind string) error {
+	switch kind {
+	case "eofwrap":
+		return fmt.Errorf("verif: injected read of a truncated data file: %w", io.EOF)
+	case "eof":
+		return io.EOF
+	case "unexpectedeof":
+		return io.ErrUnexpectedEOF
+	}
+	return errInjected
+}
+
 func (s *Store) injErr(c cid.Cid) error {
+	if s.errKind != "" {
+		return kindErr(s.errKind)
+	}
 	if s.timeout {
 		return timeoutErr{}
 	}
@@ -162,7 +182,7 @@ func (s *Store) LinkSystem() *ipld.LinkSystem {
 		s.opens++
 		if s.failOpenAt > 0 && s.opens == s.failOpenAt {
 			s.wevents = append(s.wevents, WriteEv{Kind: "openfail"})
-			return nil, nil, errInjected
+			return nil, nil, kindErr(s.writeErrKind)
 		}
 		if s.logWrites {
 			s.wevents = append(s.wevents, WriteEv{Kind: "open"})
@@ -176,7 +196,7 @@ func (s *Store) LinkSystem() *ipld.LinkSystem {
 			s.commitCount++
 			if s.failCommitAt > 0 && s.commitCount == s.failCommitAt {
 				s.wevents = append(s.wevents, WriteEv{Kind: "commitfail", Cid: cl.Cid, Len: buf.Len()})
-				return errInjected
+				return kindErr(s.writeErrKind)
 			}
 			b := append([]byte(nil), buf.Bytes()...)
 			s.Put(cl.Cid, b)
